@@ -138,10 +138,17 @@ func (fan *HwMonFan) AttachFanRpmCurveData(curveData *map[int]float64) (err erro
 }
 
 func (fan *HwMonFan) UpdateFanRpmCurveValue(pwm int, rpm float64) {
-	if fan.FanCurveData == nil {
-		fan.FanCurveData = &map[int]float64{}
+	// Note: the map is replaced instead of modified in place, since it is
+	// iterated concurrently by the api (json) and the persistence, and the
+	// go runtime aborts the whole process on a concurrent map iteration and write
+	updated := map[int]float64{}
+	if fan.FanCurveData != nil {
+		for k, v := range *fan.FanCurveData {
+			updated[k] = v
+		}
 	}
-	(*fan.FanCurveData)[pwm] = rpm
+	updated[pwm] = rpm
+	fan.FanCurveData = &updated
 }
 
 func (fan *HwMonFan) GetCurveId() string {
